@@ -30,6 +30,10 @@ SixBytes(cws) == LET d == FromBase900(cws, 256) IN Reverse(d \o Rep(0, 6 - Len(d
 NumDigits(cws) == LET d == Reverse(FromBase900(cws, 10))
                   IN IF d = <<>> \/ d[1] # 1 THEN [ok |-> FALSE, out |-> <<>>] ELSE [ok |-> TRUE, out |-> [i \in 1..(Len(d) - 1) |-> 48 + d[i + 1]]]
 
+\* the standard's packing rules (encoder side), inverted by the conversions above (checked in MC_PDF417)
+Pack6(bytes) == LET d == FoldLeft(LAMBDA digs, x : MulAdd(digs, 256, x, 900), <<>>, bytes) IN Reverse(d \o Rep(0, 5 - Len(d)))
+PackNum(digits) == Reverse(FoldLeft(LAMBDA digs, x : MulAdd(digs, 10, x, 900), <<>>, <<1>> \o digits))
+
 ------------------------------------------------------------------------------
 \* text compaction: entries >= 0 byte; -1 ps; -2 as; -11 ll (lower); -12 ml (mixed); -13 pl (punct); -14 al (alpha)
 TextUp == [i \in 1..26 |-> 64 + i] \o <<32, -11, -12, -1>>
